@@ -188,15 +188,12 @@ Section Spec.
       + rewrite Ht, String.eqb_refl. apply auth_assertion_ok. tauto.
   Qed.
 
-  (* Every refusal carries invalid_client or invalid_request, except the two assertion shapes
-     that the code answers differently: a replayed jti (jti_known, property C15) and a signed
-     assertion whose time claims are unacceptable (a plain error, rendered as "error" / 500). *)
+  (* Every refusal carries invalid_client or invalid_request; the only other answer the code has is
+     jti_known for a client assertion whose jti the store already knows (replay memory, property C15). *)
   Theorem authenticate_err_class : forall st rq e,
     authenticate cmp st rq = AErr e ->
     e = EInvalidClient \/ e = EInvalidRequest \/
-    (e = EJtiKnown /\ r_atype rq = jwt_bearer_type /\ as_jti_known (r_as rq) = true) \/
-    (e = EOther "error" /\ r_atype rq = jwt_bearer_type /\ r_ahas rq = true /\
-     as_parse (r_as rq) = true /\ as_time_ok (r_as rq) = false).
+    (e = EJtiKnown /\ r_atype rq = jwt_bearer_type /\ as_jti_known (r_as rq) = true).
   Proof.
     intros st rq e. unfold authenticate.
     destruct (String.eqb (r_atype rq) jwt_bearer_type) eqn:Et.
@@ -208,11 +205,11 @@ Section Spec.
       destruct (c_oidc c'); simpl; [|intros X; inversion X; auto].
       destruct (String.eqb (c_method c') m_pkjwt); simpl; [|intros X; inversion X; auto].
       destruct (match as_key_of (r_as rq) with Some k => String.eqb k cid | None => false end); simpl; [|intros X; inversion X; auto].
-      destruct (as_time_ok (r_as rq)) eqn:Etm; simpl; [|intros X; inversion X; right; right; right; auto].
+      destruct (as_time_ok (r_as rq)) eqn:Etm; simpl; [|intros X; inversion X; auto].
       destruct (String.eqb (as_iss (r_as rq)) cid); simpl; [|intros X; inversion X; auto].
       destruct (match as_sub (r_as rq) with Some s => String.eqb s cid | None => false end); simpl; [|intros X; inversion X; auto].
       destruct (as_jti (r_as rq)); simpl; [|intros X; inversion X; auto].
-      destruct (as_jti_known (r_as rq)) eqn:Ej; simpl; [intros X; inversion X; right; right; left; auto|].
+      destruct (as_jti_known (r_as rq)) eqn:Ej; simpl; [intros X; inversion X; right; right; auto|].
       destruct (as_aud_ok (r_as rq)); simpl; intros X; inversion X; auto.
     - destruct (nonempty (r_atype rq)); [intros X; inversion X; auto|].
       destruct (creds rq) as [e'|[i s]] eqn:Ec.
@@ -223,6 +220,19 @@ Section Spec.
         destruct (method_violation c' rq); [intros X; inversion X; auto|].
         destruct (c_public c'); [easy|].
         destruct (check_secret cmp c' s); [easy|intros X; inversion X; auto].
+  Qed.
+
+  (* the clause of the property at full strength: every refused presentation of a secret (any
+     request without a client assertion), and every refused assertion that is not a replay of a
+     known jti, is answered invalid_client or invalid_request *)
+  Theorem refusal_class : forall st rq e,
+    authenticate cmp st rq = AErr e ->
+    (r_atype rq <> jwt_bearer_type \/ as_jti_known (r_as rq) = false) ->
+    e = EInvalidClient \/ e = EInvalidRequest.
+  Proof.
+    intros st rq e H Hn. apply authenticate_err_class in H.
+    destruct H as [H|[H|[_ [Ht Hj]]]]; auto.
+    destruct Hn as [Hn|Hn]; [contradiction|congruence].
   Qed.
 
   (* The first sentence of the property, for the authentication function: acceptance as a
@@ -474,7 +484,7 @@ Section EndpointTheorems.
       destruct (rev_loop n 0 houts false) as [t calls]. simpl. now destruct calls.
     - simpl. intros [H|H]; [easy|]. destruct e; simpl in H; try discriminate H.
       subst. exfalso. revert Ea. clear. intros Ea. apply authenticate_err_class in Ea.
-      destruct Ea as [X|[X|[[X _]|[X _]]]]; discriminate X.
+      destruct Ea as [X|[X|[X _]]]; discriminate X.
   Qed.
 
   Theorem device_acts_as_authenticated : forall rq,
@@ -487,29 +497,35 @@ Section EndpointTheorems.
     - destruct (String.eqb (c_id c) (r_fid rq)) eqn:E; simpl; [|easy].
       intros _. exists c. apply String.eqb_eq in E. auto.
     - simpl. intros H. exfalso. apply authenticate_err_class in Ea.
-      destruct Ea as [X|[X|[[X _]|[X _]]]]; subst e; discriminate H.
+      destruct Ea as [X|[X|[X _]]]; subst e; discriminate H.
   Qed.
 
-  (* PAR: accepted only after successful authentication; the request is bound to the
-     authenticated client PROVIDED the body carries no client_id or the same one *)
-  Theorem par_acts_as_authenticated_partial : forall rq u,
+  (* PAR: accepted only after successful authentication, and the pushed request is the
+     authenticated client's *)
+  Theorem par_acts_as_authenticated : forall rq u,
     let o := par_endpoint cmp st rq u in
     ob_res o = "" ->
-    exists c, authenticate cmp st rq = AOk c /\
-              ((r_fid rq = "" \/ r_fid rq = c_id c) -> ob_client o = c_id c).
+    exists c, authenticate cmp st rq = AOk c /\ ob_client o = c_id c.
   Proof.
     intros rq u. unfold par_endpoint.
     destruct (authenticate cmp st rq) as [c|e] eqn:Ea.
     2: { simpl. intros H. exfalso. apply authenticate_err_class in Ea.
-         destruct Ea as [X|[X|[[X _]|[X _]]]]; subst e; discriminate H. }
+         destruct Ea as [X|[X|[X _]]]; subst e; discriminate H. }
     destruct u; [easy|].
-    intros H. exists c. split; [reflexivity|].
-    intros Hf.
-    assert (Hc : (if nonempty (r_fid rq) then r_fid rq else c_id c) = c_id c).
-    { destruct Hf as [Hf|Hf]; [apply nonempty_false in Hf; now rewrite Hf|].
-      destruct (nonempty (r_fid rq)); auto. }
-    rewrite Hc in *. destruct (lookup st (c_id c)) as [c'|] eqn:El; [|easy].
-    simpl. now destruct (lookup_some _ _ _ El).
+    destruct (lookup st (if nonempty (r_fid rq) then r_fid rq else c_id c)) as [c'|] eqn:El; [|easy].
+    destruct (String.eqb (c_id c') (c_id c)) eqn:E; [|easy].
+    simpl. intros _. exists c. split; [reflexivity|]. now apply String.eqb_eq.
+  Qed.
+
+  (* a body client_id naming another registered client is refused *)
+  Theorem par_other_client_refused : forall rq c c',
+    authenticate cmp st rq = AOk c -> r_fid rq <> "" -> lookup st (r_fid rq) = Some c' ->
+    c_id c' <> c_id c ->
+    par_endpoint cmp st rq false = Obs "invalid_request" "" [].
+  Proof.
+    intros rq c c' Ha Hf Hl Hne. unfold par_endpoint. rewrite Ha.
+    apply nonempty_true in Hf. rewrite Hf, Hl.
+    apply String.eqb_neq in Hne. now rewrite Hne.
   Qed.
 End EndpointTheorems.
 
@@ -592,12 +608,10 @@ Proof.
   right. rewrite Hg. unfold jwt_bearer_grant. easy.
 Qed.
 
-(* ------------------------------------------------------------------ clauses the faithful model refutes *)
+(* ------------------------------------------------------------------ the two repaired defects, as examples *)
 
-(* PAR: "processed in the name of a confidential client only if it proves knowledge of that
-   client's secret" is FALSE of NewPushedAuthorizeRequest: client t authenticates with its own
-   secret in the Basic header and names the confidential client o in the body; the pushed request
-   is built for (and stored under) o, whose secret was never presented. *)
+(* Before commit 59b9417 the model (like the code) built the pushed request for the confidential
+   client o although only t had authenticated; now the same request is refused. *)
 Definition wit_cmp (h s : string) : bool := String.eqb h "hash-t" && String.eqb s "secret-t".
 Definition wit_t : client := Cl "t" false false "" "hash-t" [].
 Definition wit_o : client := Cl "o" false false "" "hash-o" [].
@@ -606,29 +620,15 @@ Definition wit_rq : request :=
   Rq (HBasic "secret-t" (Some "t") (Some "secret-t")) "o" "" "" false
      (As false None "" None false false false false).
 
-Theorem par_client_binding_refuted :
-  exists cmp st rq t o,
-    authenticate cmp st rq = AOk t /\
-    lookup st (c_id o) = Some o /\ c_public o = false /\ c_id o <> c_id t /\
-    ~ (by_secret cmp st rq o \/ by_assertion st rq o) /\
-    par_endpoint cmp st rq false = Obs "" (c_id o) [].
-Proof.
-  exists wit_cmp, wit_st, wit_rq, wit_t, wit_o.
-  split; [reflexivity|]. split; [reflexivity|]. split; [reflexivity|]. split; [easy|].
-  split; [|reflexivity].
-  intros H. apply authenticate_ok_iff in H. vm_compute in H. discriminate H.
-Qed.
+Example par_other_client_example :
+  authenticate wit_cmp wit_st wit_rq = AOk wit_t /\
+  par_endpoint wit_cmp wit_st wit_rq false = Obs "invalid_request" "" [].
+Proof. split; reflexivity. Qed.
 
-(* "every other presentation is rejected as invalid_client or invalid_request" is FALSE for a
-   correctly signed client assertion whose exp/iat/nbf claims are unacceptable: the code returns
-   the JWT library's plain error, which fosite renders as "error" (HTTP 500). *)
-Theorem refusal_class_refuted :
-  exists cmp st rq e,
-    authenticate cmp st rq = AErr e /\ e <> EInvalidClient /\ e <> EInvalidRequest /\
-    as_jti_known (r_as rq) = false.
-Proof.
-  exists wit_cmp, [Cl "svc" false true m_pkjwt "" []],
-         (Rq HNone "" "" jwt_bearer_type true (As true (Some "svc") "svc" (Some "svc") false true false true)),
-         (EOther "error").
-  repeat split; easy.
-Qed.
+(* Before commit 37f391e a correctly signed assertion with unacceptable time claims was answered
+   with a plain error ("error" / 500); now it is invalid_client. *)
+Example time_invalid_assertion_example :
+  authenticate wit_cmp [Cl "svc" false true m_pkjwt "" []]
+    (Rq HNone "" "" jwt_bearer_type true (As true (Some "svc") "svc" (Some "svc") false true false true))
+  = AErr EInvalidClient.
+Proof. reflexivity. Qed.
